@@ -317,8 +317,8 @@ def cache_rules(R, lib):
                     ini = [y for y in x.get('inner', []) if y.get('kind') not in ('FullComment',) and 'Attr' not in y.get('kind', '')]
                     v_ = lib.fold_node(ini[0]) if ini else None
                     inits[x['name']] = None if '*' in (nty(x) or '') else (v_ if v_ is not None else 0)
-                    if ini and v_ is None and '*' not in (nty(x) or '') and not (nty(x) or '').endswith(']'):
-                        inits[x['name']] = ('expr', ini[-1])          # an initialiser that is not a constant (a constructor call)
+                    if ini and v_ is None and not (nty(x) or '').endswith(']'):
+                        inits[x['name']] = ('expr', ini[-1])          # an initialiser that is not a constant (a constructor call, the slot array)
         arr = [n for n, ty in fields.items() if ty and ty.endswith(']')]
         idx = [n for n, ty in fields.items() if ty and int_type_of(ty)]
         # the position may be wrapped in a small class of its own: a member of class type that holds exactly one integer
@@ -341,7 +341,9 @@ def cache_rules(R, lib):
                 ints_ = [m_ for m_, t_ in inner_ if int_type_of(t_)]
                 if len(ints_) == 1:
                     boxed[n_] = (q_, ints_[0])
-        if len(arr) != 1 or not (idx or boxed):
+        # ... or be a pointer into the slot array (a cursor initialised with the array)
+        ptrcur = [n_ for n_, ty_ in fields.items() if ty_ and ty_.rstrip().endswith('*') and isinstance(inits.get(n_), tuple)]
+        if len(arr) != 1 or not (idx or boxed or ptrcur):
             raise AnalysisError('%s: expected one slot array and an index in the cache, found %r / %r' % (f.loc, arr, idx))
         ty = fields[arr[0]]
         size = int(ty[ty.rindex('[') + 1:-1])
@@ -374,7 +376,14 @@ def cache_rules(R, lib):
                         if v2_ is None and k2_ == boxed[n_][1]:
                             attrs_[n_].attrs[k2_] = 0                # a position without an initialiser: zero-initialised with the cache
                 attrs_[arr[0]] = slots
+                late_ = {n_: v_ for n_, v_ in attrs_.items() if isinstance(v_, tuple) and v_ and v_[0] == 'expr' and n_ not in boxed}
+                for n_ in late_:
+                    attrs_[n_] = None
                 cache = AObj(attrs_, oid='cache', cls=q, ftypes={n_: int_type_of(ty_) for n_, ty_ in fields.items() if ty_ and int_type_of(ty_)})
+                for n_, (_k, node_) in late_.items():
+                    # a member whose initialiser names other members (a cursor that starts at the slot array): evaluated on the object
+                    from .cxx import Lowerer
+                    cache.attrs[n_] = AEval(module=mod, intrinsics=intr, typed=True, max_steps=5000).ev(Lowerer(lib).expr(node_), {'self': cache}, 0)
                 for step, z in enumerate(seq):
                     held = [s for s in slots if s.attrs['zone'] == z]
                     before = [s.attrs['rebinds'] for s in slots]
@@ -402,7 +411,13 @@ def cache_rules(R, lib):
                     if held and (r is not held[0] or [s.attrs['rebinds'] for s in slots] != before):
                         bad['R3-find'] = bad['R3-find'] or 'requests %s: %s is already held by %s, yet request %d is answered by %s and %d slot(s) are re-bound' % (
                             list(seq), z, held[0].oid, step + 1, r.oid, sum(1 for a_, b_ in zip(before, [s.attrs['rebinds'] for s in slots]) if a_ != b_))
-                    cur = cache.attrs[idx[0]] if idx else cache.attrs[next(iter(boxed))].attrs[boxed[next(iter(boxed))][1]]
+                    if idx:
+                        cur = cache.attrs[idx[0]]
+                    elif boxed:
+                        cur = cache.attrs[next(iter(boxed))].attrs[boxed[next(iter(boxed))][1]]
+                    else:
+                        cur = cache.attrs[ptrcur[0]]
+                        cur = 0 if cur is slots else (cur.key if isinstance(cur, Ref) and cur.box is slots else None)     # a pointer: the slot it points to
                     if not (isinstance(cur, int) and 0 <= cur < size):
                         bad['R3-index'] = bad['R3-index'] or 'requests %s: after request %d the index is %r, outside [0, %d)' % (list(seq), step + 1, cur, size)
         for rid in ('R3', 'R3-find', 'R3-index'):
@@ -485,11 +500,11 @@ def index_rule(R, lib, f):
     # interval analysis of the single counter used to index the slot array
     # the round-robin counter: the one integer member of the cache beside the slot array
     counters = [n for n, t in fields.items() if t and not t.endswith(']') and int_type(t)]
-    if not counters and any(t and not t.endswith(']') and '*' not in t and not int_type(t) for t in fields.values()):
+    if not counters and any(t and not t.endswith(']') and not int_type(t) for t in fields.values()):
         # the position lives in a member of class type: its range is decided on the interpreted request sequences (cache_rules
         # reads the integer inside that member after every request and catches any subscript outside the slots)
-        R.instance('R3-index', f.name, f.loc, 'the position is a member of class type: decided by interpretation')
-        R.instance('R3-index', f.name + '@exit', f.loc, 'the position is a member of class type: decided by interpretation')
+        R.instance('R3-index', f.name, f.loc, 'the position is a member of class or pointer type: decided by interpretation')
+        R.instance('R3-index', f.name + '@exit', f.loc, 'the position is a member of class or pointer type: decided by interpretation')
         return
     if len(counters) != 1:
         raise AnalysisError('%s: expected one integer counter member in the cache, found %r' % (f.loc, counters))
